@@ -124,6 +124,12 @@ def resolve_selector(e, env):
             e = e.args[0]
         elif isinstance(e, ast.Name) and e.id in env and (isinstance(env[e.id], (ast.Name, ast.UnaryOp)) or common.is_path(env[e.id])):
             e = env[e.id]
+        elif isinstance(e, ast.Name) and e.id in env and isinstance(env[e.id], ast.Call) and call_name(env[e.id]) == "np.flatnonzero" and len(env[e.id].args) == 1:
+            e = env[e.id].args[0]          # the rows where M holds select the same experiments, in the same order, as the mask M
+        elif isinstance(e, ast.Call) and call_name(e) == "np.flatnonzero" and len(e.args) == 1:
+            e = e.args[0]
+        elif isinstance(e, ast.Subscript) and isinstance(e.value, ast.Call) and call_name(e.value) in ("np.where", "np.nonzero") and len(e.value.args) == 1 and U(e.slice) == "0":
+            e = e.value.args[0]
         else:
             break
     return U(e), neg
@@ -608,39 +614,60 @@ def r5(ctx):
                      ("core.RetrospectivePlateSmoother.smooth_plates", "_smooth_plates")):
         f = ctx.fn(q)
         param = f.params[1]
-        env = single_defs(f.node)
-        un = [k for k, v in env.items() if U(v) == f"{param}.subset_unobserved()"]
-        ob = [k for k, v in env.items() if U(v) == f"{param}.subset_observed()"]
-        ctx.check("R5", f"{f.site()}::split", len(un) == 1 and len(ob) == 1,
-                  "splits the input by subset_unobserved() and subset_observed()",
-                  f"input is not split by the two mask views (unobserved: {un}, observed: {ob})")
-        if not (len(un) == 1 and len(ob) == 1):
-            continue
-        un, ob = un[0], ob[0]
-        new = [k for k, v in env.items() if isinstance(v, ast.Call) and U(v.func) == f"self.{inner}"]
-        ctx.need(len(new) == 1, f"{f.site()}: call of self.{inner} not found")
-        new = new[0]
-        a0 = env[new].args[0] if env[new].args else None
-        ctx.check("R5", f"{f.site()}::inner-input", a0 is not None and U(a0) == f"{un}.to_screen()",
-                  f"{inner} receives exactly the unobserved part", f"{inner} receives `{U(a0)}`")
-        par = enclosing_map(f.node)
+        from engine.astutil import path_returns
+        paths = path_returns(f.node)
+        if paths is None:
+            raise AnalysisError(f"{f.site()}: the wrapper is outside the assignment / if / return fragment")
+        UN, OB = f"{param}.subset_unobserved()", f"{param}.subset_observed()"
+        want_new = None
         probs = []
-        seen_full = False
-        for r in returns(f.node):
-            e = inline(r.value, {k: v for k, v in env.items() if k not in (un, ob, new)})
-            facts = none_facts(par, r)
-            t = U(e).replace(" ", "")
-            if t == param and un in facts:
+        seen = {"input": False, "new": False, "full": False}
+        split_seen = set()
+        for conds, ret in paths:
+            facts = {}
+            for t, pol in conds:
+                tt = U(t).replace(" ", "")
+                for nm, src in (("un", UN), ("ob", OB)):
+                    if tt == f"{src}isNone":
+                        facts[nm] = pol
+                        split_seen.add(nm)
+                    elif tt == f"{src}isnotNone":
+                        facts[nm] = not pol
+                        split_seen.add(nm)
+            if ret is None:
+                probs.append(f"a path returns nothing (under {facts})")
                 continue
-            if t == new and ob in facts:
+            t = U(ret).replace(" ", "")
+            new_t = None
+            for c in ast.walk(ret):
+                if isinstance(c, ast.Call) and U(c.func) == f"self.{inner}":
+                    new_t = U(c).replace(" ", "")
+                    a0 = c.args[0] if c.args else None
+                    if a0 is None or U(a0).replace(" ", "") != f"{UN}.to_screen()":
+                        probs.append(f"{inner} receives `{U(a0) if a0 is not None else None}`, not the unobserved part")
+            if facts.get("un") is True:
+                if t == param:
+                    seen["input"] = True
+                else:
+                    probs.append(f"with nothing unobserved the wrapper returns `{U(ret)[:80]}`, not its input")
                 continue
-            if t == f"{new}.combine({ob}.to_screen())":
-                seen_full = True
+            if new_t is None:
+                probs.append(f"returns `{U(ret)[:80]}` without calling self.{inner} although unobserved experiments exist")
                 continue
-            probs.append(f"returns `{U(r.value)}` under facts {sorted(facts)}")
-        ctx.check("R5", f"{f.site()}::recombine", not probs and seen_full,
+            if facts.get("ob") is True and t == new_t:
+                seen["new"] = True
+            elif facts.get("ob") is False and t == f"{new_t}.combine({OB}.to_screen())":
+                seen["full"] = True
+            else:
+                probs.append(f"returns `{U(ret)[:100]}` under {facts}")
+        ctx.check("R5", f"{f.site()}::split", split_seen == {"un", "ob"},
+                  "splits the input by subset_unobserved() and subset_observed()",
+                  f"input is not split by the two mask views (None tests seen for: {sorted(split_seen)})")
+        ctx.check("R5", f"{f.site()}::inner-input", not [p_ for p_ in probs if "receives" in p_], f"{inner} receives exactly the unobserved part", "; ".join(p_ for p_ in probs if "receives" in p_))
+        rest = [p_ for p_ in probs if "receives" not in p_]
+        ctx.check("R5", f"{f.site()}::recombine", not rest and seen["full"],
                   "returns input / new part / new.combine(observed.to_screen()) under the matching None tests",
-                  "; ".join(probs) or "no path recombines new part with the observed part")
+                  "; ".join(rest) or "no path recombines new part with the observed part")
 
 
 def run(ctx):
